@@ -36,4 +36,13 @@ PROPS = {
         "quick": {"shards": 8, "timeout_s": 900, "floors": {"distinct_nontrivial": 1500, "fault_positions": 5000, "fault_runs/update.apply": 300, "fault_runs/attributes.merge": 300, "fault_runs/metric.optimize": 1000}},
         "thorough": {"shards": 16, "timeout_s": 3000, "floors": {"distinct_nontrivial": 50000}},
     },
+    "C09": {
+        "quick": {"shards": 8, "timeout_s": 900, "floors": {"distinct_nontrivial": 5000, "steps_compared": 50000, "ret/add_track/duplicate-rejected": 100, "ret/merge_owned/err": 100, "ret/merge_external/err": 100, "add_missing_vs_external_build_compared": 100, "abstract_states": 500}},
+        "thorough": {"shards": 16, "timeout_s": 3400, "floors": {"distinct_nontrivial": 200000}, "engines": ["miri:c09"]},
+    },
+    "C10": {
+        "replay_repeat": 20,
+        "quick": {"shards": 8, "timeout_s": 900, "floors": {"distinct_nontrivial": 150, "gated_executions": 1000, "delayed_executions": 500, "order_signatures": 50, "scenarios_with_class_missing_errors": 20}},
+        "thorough": {"shards": 16, "timeout_s": 3400, "floors": {"distinct_nontrivial": 8000}, "engines": ["miri:c10", "tsan:c10"]},
+    },
 }
